@@ -67,6 +67,10 @@ pub struct Ldap { pub last_id: RequestId, pub id_scrub_tx: ScrubSender, pub time
 // adapter implementation: it gets the stream with `ax` advanced, may call back into start/next/finish any number
 // of times, and must leave `ax` and the adapter vector as it found them.
 pub struct AdapterArc { pub g: u8 }
+pub struct AdapterBox { pub g: u8 }
+// idiom: `adapters.into_iter().map(Mutex::new).map(Arc::new).collect()`: each adapter behind its own Arc<Mutex<..>>, same order
+#[verifier::external_body]
+pub fn verif_share_adapters(a: Vec<AdapterBox>) -> (r: Vec<AdapterArc>) ensures r@.len() == a@.len() { unimplemented!() }
 pub struct LockFut { pub g: u8 }
 pub struct AdapterGuard { pub g: u8 }
 pub struct AdNextFut { pub r: Result<Option<ResultEntry>> }
@@ -214,6 +218,25 @@ impl SearchStream {
             && final(self).ldap.id_scrub_tx.log@ == old(self).ldap.id_scrub_tx.log@, //# C10.second_finish_returns_80
         (old(self).state != StreamState::Closed && old(self).direct()) ==> final(self).state == StreamState::Closed
             && (old(self).res matches Some(sr) ==> r == sr) && (old(self).res is None ==> cancelled(r)), //# C10.finish_result_direct
+//@end
+
+//@lift name=SearchStream::new file=src/search.rs impl="impl<'a, S, A> SearchStream<'a, S, A>" fn=new
+//@ sub "fn new(ldap: Ldap, adapters: Vec<Box<dyn Adapter<'a, S, A> + 'a>>) -> Self" => "fn new(ldap: Ldap, adapters: Vec<AdapterBox>) -> Self"
+//@ sub "adapters.into_iter().map(Mutex::new).map(Arc::new).collect()" => "verif_share_adapters(adapters)"
+//@ sub "res: None,\n        }" => "res: None,\n            asked: Ghost(Seq::empty()),\n        }"
+//@ ret r
+//@ spec
+    ensures
+        r.state == StreamState::Fresh && r.ax == 0 && r.rx is None && r.res is None && r.timeout is None, //# C10.a_new_stream_is_fresh_with_nothing_received
+        r.ldap == ldap && r.adapters@.len() == adapters@.len(), r.wf(),
+//@end
+
+//@lift name=ldap_handle file=src/search.rs impl="impl<'a, S, A> SearchStream<'a, S, A>" fn=ldap_handle
+//@ ret r
+//@ spec
+    ensures *r == old(self).ldap, final(self).ldap == *final(r),
+        final(self).state == old(self).state && final(self).ax == old(self).ax && final(self).rx == old(self).rx && final(self).res == old(self).res
+            && final(self).adapters == old(self).adapters && final(self).timeout == old(self).timeout, //# C10.ldap_handle_exposes_only_the_handle
 //@end
 
 //@lift name=state file=src/search.rs impl="impl<'a, S, A> SearchStream<'a, S, A>" fn=state
